@@ -34,16 +34,34 @@ struct Snap
     bool threw = false;
     std::string what;
 };
+static bool same_bits(const Eigen::MatrixXd& a, const Eigen::MatrixXd& b);
+// The accessors are swept in ascending order of k (U before V) or in descending order (V before U); the harness uses one
+// order on the explored object and the other on the fresh reference object, so any dependence of an accessor's result on
+// the calls made before it (e.g. a cache sized by the first request) shows up in the bitwise comparison of the two.
+// A second pass in the opposite order must reproduce the first pass (accessors are pure).
 template <class Solver>
-static void sweep(Solver& s, int ncomp, Snap& o)
+static void sweep(Solver& s, int ncomp, Snap& o, bool desc = false)
 {
     try
     {
         o.sv = s.singular_values();
-        for (int k = 0; k <= ncomp + 1; k++)
+        o.U.assign(ncomp + 2, Eigen::MatrixXd());
+        o.V.assign(ncomp + 2, Eigen::MatrixXd());
+        for (int q = 0; q <= ncomp + 1; q++)
         {
-            o.U.push_back(s.matrix_U(k));
-            o.V.push_back(s.matrix_V(k));
+            const int k = desc ? ncomp + 1 - q : q;
+            if (desc) { o.V[k] = s.matrix_V(k); o.U[k] = s.matrix_U(k); }
+            else { o.U[k] = s.matrix_U(k); o.V[k] = s.matrix_V(k); }
+        }
+        for (int q = 0; q <= ncomp + 1; q++)
+        {
+            const int k = desc ? q : ncomp + 1 - q;
+            if (!same_bits(o.U[k], s.matrix_U(k)) || !same_bits(o.V[k], s.matrix_V(k)))
+            {
+                o.threw = true;
+                o.what = "matrix_U/V(" + num(k) + ") returned something else when called again after other accessor calls";
+                return;
+            }
         }
     }
     catch (const std::exception& e)
@@ -107,7 +125,7 @@ static void run_subject(const MatL& A, const MatType& M, const std::string& key0
                     sweep(s, ncomp, cur);
                     PartialSVDSolver<MatType> f(M, ncomp, ncv);
                     fresh.ret = f.compute(last.maxit, last.tol);
-                    sweep(f, ncomp, fresh);
+                    sweep(f, ncomp, fresh, true);
                 }
                 catch (const std::invalid_argument& e) { L.count("invalid_argument"); continue; }
                 catch (const std::runtime_error& e) { L.count("runtime_error"); continue; }
